@@ -7,8 +7,8 @@
    Partial: every mutex section is an atomic step, SC memory (the Relaxed tracking flag included); a table
    operation is ONE step (no pause point inside: allocator shards, freed-page lists, striped write buffer are
    outside the model); commit/abort of the shared transaction are covered by C03's model. *)
-From Coq Require Import List NArith.
-From RV Require Import Conc.Shared Conc.SharedP.
+From Coq Require Import List NArith Relations.
+From RV Require Import Conc.Shared Conc.SharedP Conc.Sched Conc.CommitGap Conc.CommitGapP.
 Import ListNotations.
 Open Scope N_scope.
 
@@ -70,3 +70,98 @@ Example c16_nonvacuous_savepoint_first :
                    (0, LSec NAnySavepoint); (1, LSec NEspUnlocked)]%nat (sinit []) = Some s /\
              s_tracking s = true /\ s_valid s = [101] /\ s_dirty s = true).
 Proof. split; eexists; vm_compute; repeat split. Qed.
+
+(* ================================================================================================================
+   The COMMIT of the shared transaction against Savepoint::drop / read transactions on other threads
+   (model Conc/CommitGap.v over the generic interleaving semantics Conc/Sched.v; proofs Conc/CommitGapP.v).
+   One committer runs the lock-protected sections of durable_commit in code order (free horizon, main free step,
+   DATA_ALLOCATED purge returning the savepoint horizon, publication, epilogue horizon CLAMPED to that savepoint
+   horizon, epilogue free step, epilogue publication); any number of threads run Savepoint::drop = [invalidate]
+   [release pin], begin_read = [register at the published id][re-check], ReadTransaction::drop.
+   `gfinal cf sched progs s0` = the state after schedule `sched` (a list of thread indices, one grant = one section).
+   `safe s0 s`: DATA_ALLOCATED names allocated pages only (between the main free step and the purge of the same commit,
+   both private to the committer: only records the purge is going to remove may name a freed page); no page of a
+   DATA_FREED record with key > r has been freed while a read pinned at r is live or a savepoint of transaction r is
+   valid; every read transaction a reader thread holds is registered.
+   `wf_init s0`: what the earlier commits establish (every pin has an owner, savepoint ids and their transaction ids
+   grow together, a page is queued for freeing once and was allocated by an earlier transaction than the one that
+   unlinked it, both tables name allocated pages); `wf_init_b` is its checker, evaluated on every initial state the
+   harness takes from the implementation.
+   Idealisations: each mutex section is one atomic step, SC; SYSTEM_FREED, the allocation of system pages by the commit
+   and staged persistent-savepoint deletions are outside the model. *)
+
+(* for EVERY schedule, every number of droppers / readers / records: the final state is safe *)
+Theorem c16_epilogue_horizon_safe : forall s0 progs sched,
+  wf_init s0 -> safe s0 (gfinal faithful sched progs s0).
+Proof. exact epilogue_horizon_safe. Qed.
+
+(* ... and so is every intermediate state (the state after any prefix of the schedule) *)
+Theorem c16_epilogue_horizon_safe_prefix : forall s0 progs sched n,
+  wf_init s0 -> safe s0 (gfinal faithful (firstn n sched) progs s0).
+Proof. exact epilogue_horizon_safe_prefix. Qed.
+
+(* the form used per run: the precondition as an executable check of the implementation's state *)
+Theorem c16_epilogue_horizon_safe_checked : forall s0 progs sched,
+  wf_init_b s0 = true -> safe s0 (gfinal faithful sched progs s0).
+Proof. exact epilogue_horizon_safe_checked. Qed.
+
+(* lock_order_acyclic: over the lock-acquisition chains of the modelled sections (CommitGap.lock_chains: 29 chains over
+   9 mutexes, transcribed from the code: tables -> system_tables -> savepoint_state -> freed_pages -> allocated_pages ->
+   tracker.state -> unpersisted -> mem.state) the relation "holds a while acquiring b" has no cycle *)
+Theorem c16_lock_order_acyclic : forall l, ~ clos_trans lock holds_while_acquiring l l.
+Proof. exact lock_order_acyclic. Qed.
+
+(* ---------------------------------------------------------------- non-vacuity and the two seeded variants *)
+(* transaction 4 commits; savepoint 1 pins transaction 0; transaction 2 allocated page 10 (DATA_ALLOCATED[2]) and
+   transaction 3 unlinked it (DATA_FREED[3]); the committer's own records: DATA_FREED[4] = {11}, DATA_ALLOCATED[4] = {12};
+   `held` = pins of read transactions that stay live *)
+Definition cg_ex (held : list N) : cst :=
+  ginit 4 3 ([0] ++ held) [(1, 0)] [] held [(3, [10]); (4, [11])] [(2, [10]); (4, [12])] [10; 11; 12; 13].
+Definition cg_progs : list (list gcall) := [[GCommit]; [GDrop 1 0]; [GBeginRead; GEndRead]].
+
+(* the hypotheses are satisfiable; the savepoint dropped between the purge and the epilogue while a newer read (pinned
+   at 3) is live: the clamp holds the epilogue's horizon at 1, nothing is freed, page 10 stays allocated; without the
+   drop in the way and without readers the epilogue frees both records *)
+Example c16_epilogue_horizon_nonvacuous :
+  wf_init_b (cg_ex [3]) = true /\
+  (let s := gfinal faithful [0;0;0;0; 1;1;1; 2;2; 0;0;0;0;0;0;0;0;0;0;0;0]%nat cg_progs (cg_ex [3]) in
+   g_pc s = 15 /\ g_sph s = Some 0 /\ g_eh s = 1 /\ g_gone_epi s = [] /\ g_alloc s = [(2, [10]); (4, [12])] /\
+   g_allocated s = [10; 11; 12; 13] /\ g_valid s = [] /\ g_live s = [3; 3] /\ g_readers s = [(2%nat, 3)]) /\
+  (let s := gfinal faithful [1;1;1; 0;0;0;0;0;0;0;0;0;0;0;0;0;0;0;0;0;0]%nat cg_progs (cg_ex []) in
+   g_pc s = 15 /\ g_sph s = None /\ g_alloc s = [] /\ g_purged s = [2; 4] /\ g_gone_main s = [(3, [10])] /\
+   g_gone_epi s = [(4, [11])] /\ g_allocated s = [12; 13] /\ g_last s = 5 /\ g_live s = [4]).
+Proof. vm_compute. repeat split. Qed.
+
+(* seeded bug 1 inside the model: the two sections of Savepoint::drop swapped (pin released first).  The dropper is
+   stopped between them; the commit's main free step no longer sees the pin and frees page 10, the purge still sees the
+   savepoint and keeps DATA_ALLOCATED[2] = {10}.  The code as it is stays safe under the same schedule. *)
+Example c16_drop_order_matters_refuted :
+  exists sched,
+    wf_init (cg_ex []) /\
+    ~ safe (cg_ex []) (gfinal {| swap_drop := true; weak_clamp := false |} sched cg_progs (cg_ex [])) /\
+    alloc_ok_b (gfinal faithful sched cg_progs (cg_ex [])) = true.
+Proof.
+  exists [1; 1; 0; 0; 0; 0]%nat. split; [apply wf_init_b_sound; vm_compute; reflexivity | split; [|vm_compute; reflexivity]].
+  intros [H _].
+  assert (E : In 10 (g_allocated (gfinal {| swap_drop := true; weak_clamp := false |} [1; 1; 0; 0; 0; 0]%nat cg_progs (cg_ex [])))).
+  { apply (H ltac:(vm_compute; discriminate) 2 [10] 10); vm_compute; auto. }
+  clear H. vm_compute in E. repeat (destruct E as [E|E]; [discriminate E|]). exact E.
+Qed.
+
+(* seeded bug 2 inside the model: the clamp applied only when no read is live.  A read pinned at 3 is live, the savepoint
+   is dropped between the purge (horizon 0, DATA_ALLOCATED[2] kept) and the epilogue: the epilogue's horizon is 4, it frees
+   DATA_FREED[3] = {10}.  The code as it is stays safe under the same schedule. *)
+Example c16_clamp_needed_refuted :
+  exists sched,
+    wf_init (cg_ex [3]) /\
+    ~ safe (cg_ex [3]) (gfinal {| swap_drop := false; weak_clamp := true |} sched cg_progs (cg_ex [3])) /\
+    alloc_ok_b (gfinal faithful sched cg_progs (cg_ex [3])) = true.
+Proof.
+  exists [0; 0; 0; 0; 1; 1; 1; 0; 0; 0; 0; 0; 0; 0]%nat.
+  split; [apply wf_init_b_sound; vm_compute; reflexivity | split; [|vm_compute; reflexivity]].
+  intros [H _].
+  assert (E : In 10 (g_allocated (gfinal {| swap_drop := false; weak_clamp := true |}
+                                   [0; 0; 0; 0; 1; 1; 1; 0; 0; 0; 0; 0; 0; 0]%nat cg_progs (cg_ex [3])))).
+  { apply (H ltac:(vm_compute; discriminate) 2 [10] 10); vm_compute; auto. }
+  clear H. vm_compute in E. repeat (destruct E as [E|E]; [discriminate E|]). exact E.
+Qed.
